@@ -40,7 +40,8 @@ static bool Representable(const string& n, bool as_target, bool escape_colon = f
   if (n.back() == ':') return false;                 // "x:" is "x" plus the rule separator
   size_t bs = 0;
   for (size_t i = n.size(); i > 0 && n[i - 1] == '\\'; --i) bs++;
-  if (bs) return false;                              // trailing backslashes merge with the separator
+  if (bs % 2) return false;                          // an odd run of trailing backslashes merges with the separator;
+                                                     // an even one is written as it is and ends the name (2N stay 2N)
   for (size_t i = 0; i + 1 < n.size(); ++i) {
     // a backslash before '#' always reads as an escape; before ':' it does unless the producer escapes
     // colons ("a\\:b" for the name "a\:b": the last backslash belongs to the colon, the others are literal)
